@@ -15,6 +15,7 @@ pub fn singleton_save__KEY_CONFIG(storage: &mut dyn Storage, v: &Config) -> (r: 
 #[verifier::external_body]
 pub fn item_may_load__PRICES(storage: &dyn Storage, key: String) -> (r: StdResult<Option<Vec<PriceData>>>)
     ensures
+        r is Ok,   // a value stored by this contract always deserialises (T4)
         r is Ok ==> (r->Ok_0 is Some <==> storage.view().prices.contains_key(key@)),
         r is Ok && r->Ok_0 is Some ==> r->Ok_0->Some_0@ == storage.view().prices[key@],
 { unimplemented!() }
